@@ -9,6 +9,8 @@ CONSTANTS
   NewestFirst = TRUE
   RoutesFirst = TRUE
   OtherForAll = FALSE
+  EmptyMeansAll = FALSE
+  StatusSucceeds = FALSE
   StarWithCreds = TRUE
 INVARIANT OnlyAllowedOrigins
 INVARIANT NoOriginUntouched
@@ -18,4 +20,5 @@ INVARIANT NoWildcardWithCredentials
 INVARIANT PreflightOnlyOnSuccessWithAllow
 INVARIANT AllowRemovedOnPreflight
 INVARIANT DeniedPreflightWithdrawsGrants
+INVARIANT NoApprovalAfterRaise
 INVARIANT AllowOtherwiseKept
